@@ -17,42 +17,175 @@ import (
 	"verif.local/mc/shim"
 )
 
-// FS wraps a MemoryFilesystem: records file events and can hold back background work by
-// blocking the creation of table files (the first storage step of a flush or compaction).
+// FS wraps a MemoryFilesystem: keeps a shadow copy of every saved file, logs every mutating
+// storage operation together with a snapshot of the file set after it, and can hold back
+// background work by blocking the creation of table files (the first storage step of a flush
+// or compaction).
 type FS struct {
-	*storage.MemoryFilesystem
+	mem *storage.MemoryFilesystem
+	sh  *fsShared
+}
+
+type fsShared struct {
 	mu      sync.Mutex
 	cond    *sync.Cond
 	hold    bool
-	Events  []string
 	waiting int
+	files   map[string][]byte // uri -> content of saved files
+	Log     []FSEvent
+	Record  bool // take a snapshot after every mutation
+}
+
+// FSEvent is one mutating storage operation and the file set right after it.
+type FSEvent struct {
+	Op    string
+	Files map[string][]byte // nil unless recording
 }
 
 func NewFS() *FS {
-	f := &FS{MemoryFilesystem: storage.NewMemoryFilesystem()}
-	f.cond = sync.NewCond(&f.mu)
+	f := &FS{mem: storage.NewMemoryFilesystem(), sh: &fsShared{files: map[string][]byte{}}}
+	f.sh.cond = sync.NewCond(&f.sh.mu)
 	return f
+}
+
+// WithWorkingDir returns a view with another working directory over the same files.
+func (f *FS) WithWorkingDir(dir string) *FS {
+	return &FS{mem: f.mem.WithWorkingDir(dir), sh: f.sh}
 }
 
 // Hold closes (true) or opens (false) the gate for new table files.
 func (f *FS) Hold(h bool) {
-	f.mu.Lock()
-	f.hold = h
-	f.mu.Unlock()
-	f.cond.Broadcast()
+	f.sh.mu.Lock()
+	f.sh.hold = h
+	f.sh.mu.Unlock()
+	f.sh.cond.Broadcast()
+}
+
+// Record switches snapshot recording on or off.
+func (f *FS) Record(on bool) { f.sh.mu.Lock(); f.sh.Record = on; f.sh.mu.Unlock() }
+
+// TakeLog returns and clears the event log.
+func (f *FS) TakeLog() []FSEvent {
+	f.sh.mu.Lock()
+	defer f.sh.mu.Unlock()
+	l := f.sh.Log
+	f.sh.Log = nil
+	return l
+}
+
+// Snapshot returns the current file set.
+func (f *FS) Snapshot() map[string][]byte {
+	f.sh.mu.Lock()
+	defer f.sh.mu.Unlock()
+	return f.sh.snap()
+}
+
+// Exists reports whether a saved file with this URI exists.
+func (f *FS) Exists(uri string) bool {
+	f.sh.mu.Lock()
+	defer f.sh.mu.Unlock()
+	_, ok := f.sh.files[uri]
+	return ok
+}
+
+func (s *fsShared) snap() map[string][]byte {
+	m := make(map[string][]byte, len(s.files))
+	for k, v := range s.files {
+		m[k] = v
+	}
+	return m
+}
+
+func (s *fsShared) event(op string) {
+	ev := FSEvent{Op: op}
+	if s.Record {
+		ev.Files = s.snap()
+	}
+	s.Log = append(s.Log, ev)
 }
 
 func (f *FS) New(path string) storage.File {
 	if strings.HasSuffix(path, ".sst") {
-		f.mu.Lock()
-		f.waiting++
-		for f.hold {
-			f.cond.Wait()
+		f.sh.mu.Lock()
+		f.sh.waiting++
+		for f.sh.hold {
+			f.sh.cond.Wait()
 		}
-		f.waiting--
-		f.mu.Unlock()
+		f.sh.waiting--
+		f.sh.mu.Unlock()
 	}
-	return f.MemoryFilesystem.New(path)
+	return &recFile{File: f.mem.New(path), sh: f.sh}
+}
+
+func (f *FS) Open(path string) storage.File { return &recFile{File: f.mem.Open(path), sh: f.sh} }
+
+func (f *FS) Copy(src, dst string) error {
+	if err := f.mem.Copy(src, dst); err != nil {
+		return err
+	}
+	su, du := f.mem.Open(src).URI(), f.mem.Open(dst).URI()
+	f.sh.mu.Lock()
+	f.sh.files[du] = f.sh.files[su]
+	f.sh.event("copy " + su + " -> " + du)
+	f.sh.mu.Unlock()
+	return nil
+}
+
+var _ storage.FileSystem = (*FS)(nil)
+
+type recFile struct {
+	storage.File
+	sh  *fsShared
+	buf []byte
+}
+
+func (r *recFile) Write(p []byte) (int, error) {
+	r.buf = append(r.buf, p...)
+	return r.File.Write(p)
+}
+
+func (r *recFile) Save() error {
+	if err := r.File.Save(); err != nil {
+		return err
+	}
+	r.sh.mu.Lock()
+	r.sh.files[r.File.URI()] = r.buf
+	r.sh.event("save " + r.File.URI())
+	r.sh.mu.Unlock()
+	return nil
+}
+
+func (r *recFile) Delete() error {
+	err := r.File.Delete()
+	r.sh.mu.Lock()
+	delete(r.sh.files, r.File.URI())
+	r.sh.event("delete " + r.File.URI())
+	r.sh.mu.Unlock()
+	return err
+}
+
+func (r *recFile) CreateDeleteFunc() func() error {
+	inner := r.File.CreateDeleteFunc()
+	uri, sh := r.File.URI(), r.sh
+	return func() error {
+		err := inner()
+		sh.mu.Lock()
+		delete(sh.files, uri)
+		sh.event("cleanup-delete " + uri)
+		sh.mu.Unlock()
+		return err
+	}
+}
+
+// MemFSFrom builds a plain MemoryFilesystem holding exactly the given files.
+func MemFSFrom(files map[string][]byte) *storage.MemoryFilesystem {
+	m := storage.NewMemoryFilesystem()
+	for uri, data := range files {
+		f := m.New(uri)
+		f.Write(data)
+		f.Save()
+	}
+	return m
 }
 
 // Options is one tiny configuration of the database.
@@ -213,4 +346,19 @@ func NoteLayout(c *mc.Ctx, db *dkv.DB) string {
 		}
 	}
 	return fmt.Sprint(sealed, levels)
+}
+
+// PanicText classifies a recovered value: a panic of the code under test (error or string
+// not raised by the machinery) yields its text; anything else must be re-panicked.
+func PanicText(r any) (string, bool) {
+	switch v := r.(type) {
+	case error:
+		return v.Error(), true
+	case string:
+		if strings.HasPrefix(v, "mc: ") {
+			return "", false
+		}
+		return v, true
+	}
+	return "", false
 }
